@@ -408,16 +408,27 @@ func init() {
 	callModels["github.com/pierrec/lz4/v4.UncompressBlock"] = func(e *Engine, f *frame, st *State, args []Val, rt types.Type, pos string) Val {
 		c := e.C
 		src, dst := args[0], args[1]
-		errv, okc := e.maybeError(st, errorType(), "lz4d")
-		n := c.Fresh("lz4d.n", smt.BV(64))
+		// assumed contract of the LZ4 block decoder: a block is either invalid or denotes one byte string
+		// (lz4.orig, of length lz4.origlen); decoding succeeds exactly when the block is valid and the destination
+		// is at least that long, writes those bytes and returns their number; on failure it returns (0, err);
+		// the empty block decodes to nothing.
+		arr := e.heapArr(st, elemName(types.Typ[types.Uint8], 0), smt.Array(smt.Int, bytesInner))
+		w := e.canonWindow(c.Select(arr, src.Terms[0]), src.Terms[1], src.Terms[2])
+		valid := c.App("lz4.valid", smt.Bool, w, src.Terms[2])
+		olen := c.App("lz4.origlen", smt.BV(64), w, src.Terms[2])
+		orig := c.App("lz4.orig", bytesInner, w, src.Terms[2])
 		z := c.BVLit64(0, 64)
-		e.assume(st, c.And(bvle(c, z, n), bvle(c, n, dst.Terms[2]),
-			c.Implies(c.Eq(src.Terms[2], z), c.And(okc, c.Eq(n, z))),
-			c.Implies(c.Not(okc), c.Eq(n, z))))
+		empty := c.Eq(src.Terms[2], z)
+		e.assume(st, c.And(bvle(c, z, olen), c.Implies(empty, c.And(valid, c.Eq(olen, z)))))
+		okc := c.And(valid, bvle(c, olen, dst.Terms[2]))
+		ref := e.newRef(st)
+		errv := Val{Typ: errorType(), Terms: []*smt.Term{c.Ite(okc, c.IntLit(0), c.IntLit(int64(e.typeTag(errTagType)))), c.Ite(okc, c.IntLit(0), ref)}}
+		n := c.Ite(okc, olen, z)
 		e.frameCheckRef(f, st, dst.Terms[0], "elem:uint8", pos)
 		name := elemName(types.Typ[types.Uint8], 0)
-		arr := e.heapArr(st, name, smt.Array(smt.Int, bytesInner))
-		st.Heap[name] = c.Store(arr, dst.Terms[0], c.Fresh("lz4d.out", bytesInner))
+		st.Heap[name] = c.Store(arr, dst.Terms[0], c.Ite(okc,
+			c.App("arr.splice."+sortTag(smt.BV(8)), bytesInner, c.Select(arr, dst.Terms[0]), dst.Terms[1], orig, z, olen),
+			c.Fresh("lz4d.garbage", bytesInner)))
 		return Val{Typ: rt, Terms: []*smt.Term{n, errv.Terms[0], errv.Terms[1]}}
 	}
 	callModels["github.com/golang/snappy.Encode"] = func(e *Engine, f *frame, st *State, args []Val, rt types.Type, pos string) Val {
